@@ -77,6 +77,7 @@ F_SOCK = "C02-socket-options-boolean-value"
 F_B64 = "C02-binary-not-strict-base64"
 F_DICTV = "C02-dictionary-value-null-or-empty-list"
 F_MODCR = "C02-modified-before-created"
+F_NREF = "C02-v20-nested-object-reference-unchecked"
 
 
 def _ident(**kw):
@@ -136,6 +137,29 @@ def witness_cases():
     add("modified-before-created", "construct", "2.1/Relationship",
         {"relationship_type": "uses", "source_ref": "identity--" + U, "target_ref": "identity--" + U,
          "created": "2016-01-01T00:00:00.001Z", "modified": T0})
+    # STIX 2.0 object references inside an extension / an embedded object of a container member (the library checks
+    # only the references at the top of a member)
+    def od20(objs):
+        return {"type": "observed-data", "id": "observed-data--" + U, "created": T0, "modified": T0,
+                "first_observed": "2016-01-01T00:00:00Z", "last_observed": "2016-01-01T00:00:00Z", "number_observed": 1,
+                "objects": objs}
+    add("nested-ref-dangling", "parse", "2.0/ObservedData",
+        od20({"0": {"type": "file", "name": "a", "extensions": {"archive-ext": {"contains_refs": ["5"]}}}}))
+    add("nested-ref-wrong-type", "parse", "2.0/ObservedData",
+        od20({"0": {"type": "file", "name": "a", "extensions": {"archive-ext": {"contains_refs": ["1"]}}},
+              "1": {"type": "ipv4-addr", "value": "198.51.100.1"}}))
+    add("nested-ref-dangling", "parse", "2.0/ObservedData",
+        od20({"0": {"type": "email-message", "is_multipart": True, "body_multipart": [{"body_raw_ref": "9"}]}}))
+    add("nested-ref-dangling", "parse", "2.0/ObservedData",
+        od20({"0": {"type": "network-traffic", "protocols": ["tcp"], "src_ref": "1",
+                    "extensions": {"http-request-ext": {"request_method": "get", "request_value": "/", "message_body_data_ref": "7"}}},
+              "1": {"type": "ipv4-addr", "value": "198.51.100.1"}}))
+    add("nested-ref-fine", "parse", "2.0/ObservedData",
+        od20({"0": {"type": "file", "name": "a", "extensions": {"archive-ext": {"contains_refs": ["1"]}}},
+              "1": {"type": "file", "name": "b"}}))
+    add("direct-ref-dangling", "parse", "2.0/ObservedData", od20({"0": {"type": "directory", "path": "/", "contains_refs": ["5"]}}))
+    add("direct-ref-wrong-type", "parse", "2.0/ObservedData",
+        od20({"0": {"type": "email-message", "is_multipart": False, "from_ref": "1"}, "1": {"type": "file", "name": "a"}}))
     # already constructed objects given as property values (Python-only; judged by the oracle): a marking object of
     # another kind than definition_type names, a registered extension object that was built with allow_custom
     def py(label, cid, data):
@@ -403,10 +427,83 @@ def norm_modcr(j, cid=None):
 
 # order matters when two repairs of one value both make it valid (a binary value ending in a line feed): the
 # kind-aware repairs come first
-NORMALISERS = [(F_B64, norm_b64), (F_DICTV, norm_dictv), (F_MODCR, norm_modcr),
+MINIMAL_SCO = {
+    "file": {"type": "file", "name": "x"}, "directory": {"type": "directory", "path": "/x"},
+    "artifact": {"type": "artifact", "payload_bin": "AAAA"}, "ipv4-addr": {"type": "ipv4-addr", "value": "198.51.100.9"},
+    "ipv6-addr": {"type": "ipv6-addr", "value": "2001:db8::9"}, "mac-addr": {"type": "mac-addr", "value": "00:00:5e:00:53:09"},
+    "domain-name": {"type": "domain-name", "value": "example.com"}, "email-addr": {"type": "email-addr", "value": "a@example.com"},
+    "autonomous-system": {"type": "autonomous-system", "number": 1}, "user-account": {"type": "user-account", "user_id": "u"},
+    "software": {"type": "software", "name": "s"}, "process": {"type": "process", "pid": 1}, "url": {"type": "url", "value": "http://x"},
+    "mutex": {"type": "mutex", "name": "m"}, "email-message": {"type": "email-message", "is_multipart": False},
+}
+
+
+def norm_nref(j, cid=None):
+    """Only STIX 2.0 object references INSIDE an extension or an embedded object of a container member that are dangling
+    or point to a type the property does not allow: redirected to a member of an allowed type (added when none exists)."""
+    sp = _spec()
+    reg = sp["registries"]["2.0"]
+
+    def repair(cont):
+        cont = copy.deepcopy(cont)
+
+        def target(vt):
+            for k, m in cont.items():
+                if isinstance(m, dict) and (not vt or m.get("type") in vt):
+                    return k
+            t = next((x for x in (vt or ["ipv4-addr"]) if x in MINIMAL_SCO), None)
+            if t is None:
+                return None
+            key = "r%d" % len(cont)
+            cont[key] = dict(MINIMAL_SCO[t])
+            return key
+
+        def fix(vt, v):
+            m = cont.get(v) if isinstance(v, str) else None
+            if isinstance(m, dict) and (not vt or m.get("type") in vt):
+                return v
+            t = target(vt)
+            return v if t is None else t
+
+        def go(ccid, o, top):
+            c = sp["classes"].get(ccid)
+            if c is None or not isinstance(o, dict):
+                return o
+            kinds = {s["name"]: s["kind"] for s in c["slots"]}
+            out = {}
+            for k, v in o.items():
+                kd = kinds.get(k)
+                t = kd["k"] if kd else None
+                if t == "objref" and not top:
+                    v = fix(kd.get("valid_types"), v)
+                elif t == "list" and kd["of"]["k"] == "objref" and not top and isinstance(v, list):
+                    v = [fix(kd["of"].get("valid_types"), e) for e in v]
+                elif t == "embedded":
+                    v = go(kd["cls"], v, False)
+                elif (t == "listof" or (t == "list" and kd["of"]["k"] == "embedded")) and isinstance(v, list):
+                    cls = kd["cls"] if t == "listof" else kd["of"]["cls"]
+                    v = [go(cls, e, False) for e in v]
+                elif t == "extensions" and isinstance(v, dict):
+                    v = {n: (go(reg["extensions"][n], e, False) if n in reg["extensions"] else e) for n, e in v.items()}
+                out[k] = v
+            return out
+        for key in list(cont):
+            m = cont[key]
+            if isinstance(m, dict) and m.get("type") in reg["observables"]:
+                cont[key] = go(reg["observables"][m["type"]], m, True)
+        return cont
+
+    def obj(c, o):
+        if c["name"] == "ObservedData" and c["ver"] == "2.0" and isinstance(o.get("objects"), dict):
+            return dict(o, objects=repair(o["objects"]))
+        return o
+    return walk(cid, j, on_obj=obj)
+
+
+NORMALISERS = [(F_NREF, norm_nref), (F_B64, norm_b64), (F_DICTV, norm_dictv), (F_MODCR, norm_modcr),
                (F_MD20, norm_md20), (F_SOCK, norm_sock), (F_UUID, norm_uuid), (F_CONF, norm_conf), (F_NL, norm_nl), (F_MD6, norm_md6), (F_EXT0, norm_ext0),
                (F_TOP, norm_top)]
-NEEDS_CID = (norm_top, norm_md20, norm_sock, norm_b64, norm_dictv, norm_modcr)
+NEEDS_CID = (norm_top, norm_md20, norm_sock, norm_b64, norm_dictv, norm_modcr, norm_nref)
 
 
 def classify_invalid(items, pats):
